@@ -28,6 +28,8 @@ DeviationName(m) == IF DevPkwareAsciiMode(m) THEN "pkware-ascii-mode"
 MatchesClass(res, cl) == \/ cl = "ok" /\ res = "ok"
                          \/ cl = "panic" /\ res = "panic"
                          \/ cl = "err" /\ res = "err:Compression"
+                         \* (trees before 8c7dcc0 showed the PKWare mode mismatch as a panic of the implode crate)
+                         \/ cl = "err" /\ res = "panic"
 
 RoundTripOk(e) ==
   /\ e.dres = "ok" /\ e.sres = "ok" /\ e.dlen = e.len
